@@ -46,9 +46,19 @@ func runC08(c *Ctx) {
 
 	// ---------- R3 ----------
 	if mu := p.Func("waddrmgr", "ScopedKeyManager", "MarkUsed"); mu != nil {
+		// the eviction: the delete on the address cache, or the call of a private part that does it on every path
+		isEvict := func(ins ssa.Instruction) bool {
+			call, ok := ins.(*ssa.Call)
+			if !ok || calleeShort(&call.Call) != "delete" || len(call.Call.Args) == 0 {
+				return false
+			}
+			_, f, _, okf := fieldOf(call.Call.Args[0])
+			return okf && f == "addrs"
+		}
+		evictLifted := viaHelpers("evict-address", isEvict, true)
 		var del *ssa.Call
-		for _, call := range callsNamed(mu, "delete") {
-			if _, f, _, ok := fieldOf(call.Call.Args[0]); ok && f == "addrs" {
+		for _, ci := range callsOf(mu) {
+			if call, ok := ci.(*ssa.Call); ok && evictLifted(call) {
 				del = call
 			}
 		}
